@@ -234,3 +234,61 @@ Proof.
   split; [reflexivity|]. split; [reflexivity|]. split; [vm_compute; reflexivity|].
   eexists. eexists. vm_compute. reflexivity.
 Qed.
+
+(* ---------- validator election with the VRF beacon backend (shuffle.go:38-86) ---------- *)
+(* The sortition only ever looks at the proofs of the validator CANDIDATES. *)
+Lemma vrf_collect_ext beta beta' l : forall seen,
+  (forall n, In n l -> beta (n_id n) = beta' (n_id n)) ->
+  vrf_collect beta l seen = vrf_collect beta' l seen.
+Proof.
+  induction l as [|n r IH]; intros seen H; cbn [vrf_collect]; [reflexivity|].
+  rewrite <- (H n (or_introl eq_refl)).
+  assert (Hr : forall m, In m r -> beta (n_id m) = beta' (n_id m)) by (intros m Hm; apply H; right; exact Hm).
+  destruct (beta (n_id n)) as [b|]; [|apply IH; exact Hr].
+  destruct (memN b seen); [apply IH; exact Hr|]. f_equal. apply IH. exact Hr.
+Qed.
+
+Lemma filter_has_pi_ext beta beta' l :
+  (forall n, In n l -> beta (n_id n) = beta' (n_id n)) ->
+  filter (has_pi beta) l = filter (has_pi beta') l.
+Proof.
+  intros H. apply filter_ext_in. intros n Hn. unfold has_pi. rewrite (H n Hn). reflexivity.
+Qed.
+
+(* whatever proofs nodes that are NOT validator candidates submitted (compute nodes, observers,
+   frozen / expired / under-staked validators) -- the election result is the same *)
+Lemma vrf_election_ignores_other_proofs p ents epoch nodes pe pn beta beta' :
+  (forall n, In n (vcands p ents epoch nodes) -> beta (n_id n) = beta' (n_id n)) ->
+  elect_validators_vrf p ents epoch nodes pe pn beta = elect_validators_vrf p ents epoch nodes pe pn beta'.
+Proof.
+  intros H. unfold elect_validators_vrf, vrf_sort.
+  rewrite (filter_has_pi_ext beta beta' _ H), (vrf_collect_ext beta beta' _ [] H). reflexivity.
+Qed.
+
+(* when fewer than MinValidators candidates have a proof, the election is exactly the
+   entropy-path election (for which election_succeeds_under_precondition applies) *)
+Lemma vrf_election_falls_back p ents epoch nodes pe pn beta :
+  len (filter (has_pi beta) (vcands p ents epoch nodes)) < p_min p ->
+  elect_validators_vrf p ents epoch nodes pe pn beta = elect_validators p ents epoch nodes pe pn.
+Proof.
+  intros H. unfold elect_validators_vrf, elect_validators.
+  rewrite (proj2 (N.ltb_lt _ _) H). reflexivity.
+Qed.
+
+(* the seeded variant: the fallback test counts the proofs of ALL nodes *)
+Definition elect_validators_vrf_any_proofs (p : params) (ents : list entity) (epoch : N) (nodes : list node)
+  (perm_e perm_n : list N) (beta : N -> option N) (nproofs : N) : vres :=
+  let cands := vcands p ents epoch nodes in
+  elect_core p ents perm_e cands
+    (if nproofs <? p_min p then apply_perm perm_n cands else vrf_sort beta cands).
+
+(* two eligible validators without proofs, two proofs from other nodes, MinValidators = 2: the
+   variant elects nobody, the real rule elects both *)
+Lemma vrf_any_proofs_refuted :
+  let p := mkParams 2 100 1 true false in
+  let nodes := [ex_node 1; ex_node 2] in
+  elect_validators_vrf_any_proofs p [] 1 nodes [0; 1] [0; 1] (fun _ => None) 2 = VErrNone /\
+  exists vals vents, elect_validators_vrf p [] 1 nodes [0; 1] [0; 1] (fun _ => None) = VOk vals vents /\ len vals = 2.
+Proof.
+  split; [vm_compute; reflexivity|]. eexists. eexists. split; vm_compute; reflexivity.
+Qed.
